@@ -42,7 +42,8 @@ class StageFilter:
         self.cache = {}
 
     def is_stage(self, code):
-        r = self.cache.get(code)
+        e = self.cache.get(id(code))     # id(): hashing a code object is expensive; the entry keeps the object alive
+        r = e[0] if e is not None else None
         if r is None:
             fn = code.co_filename
             if fn == "<string>":
@@ -51,7 +52,7 @@ class StageFilter:
                 r = not fn.endswith("experiment_evaluator.py")
             else:
                 r = False
-            self.cache[code] = r
+            self.cache[id(code)] = (r, code)
         return r
 
 
